@@ -1055,6 +1055,10 @@ class SSHProcess(SSHStreamSession, Generic[AnyStr]):
         self._readers = {}
         self._writers = {}
 
+        # Wake up callers of drain() waiting on a redirect to complete
+        for datatype in self._drain_waiters:
+            self._unblock_drain(datatype)
+
     def data_received(self, data: AnyStr, datatype: DataType) -> None:
         """Handle incoming data from the SSH channel"""
 
